@@ -29,13 +29,16 @@ RULE = (
     "of the three TN93 logarithm arguments = 0, paralinear/LogDet determinant = 0 in exact rational arithmetic — padded "
     "by block replication, column/row order, base relabelling and no-data columns) x 6 calculators (hamming, pdist, jc69, tn93, paralinear, logdet +/- TK "
     "adjustment) x entry points (Alignment/ArrayAlignment.distance_matrix with drop_invalid False/True, calculator "
-    "object incl. lengths/proportions tables and include_duplicates=False, fast_slow_dist app) x (as given, columns "
+    "object incl. lengths/proportions tables and include_duplicates=False, fast_slow_dist app, and the app named by "
+    "fast_calc= / distance= in lower/upper case with its moltype unset / dna / rna on the same data written as DNA and as RNA) x (as given, columns "
     "permuted, rows re-ordered). trees: random / caterpillar / balanced / star-like trees on 3-14 (thorough 3-24) tips "
     "with positive dyadic branch lengths (mixed, all-equal => tied joins, tiny internal, one very short edge of 3e-11 / "
     "1e-12 among ordinary ones), the same trees expressed in small units (x 2^-20 / 2^-30 / 2^-34 / 2^-40, exact), "
     "exact path-length matrix, "
     "shuffled tip order, given as full dict / one-sided dict / DistanceMatrix to nj, gnj (default and keep/dkeep), "
-    "DistanceMatrix.quick_tree, the quick_tree app; coalescent-style ultrametric trees to upgma; for one entry point "
+    "DistanceMatrix.quick_tree, the quick_tree app; coalescent-style ultrametric trees to upgma; deep ladders (one lineage absorbing every join; 35-120 tips, thorough "
+    "also 1100; integer heights; growing cluster first / last / anywhere in the matrix) to upgma and to UPGMA_cluster "
+    "directly with large_number = BIG_NUM and 9999999999; for one entry point "
     "per tree the scale relation builder(c*D) = c*builder(D), c a power of two. Non-trivial = "
     "alignment with >=3 rows and >=1 non-canonical symbol, or tree with >=5 tips; distinct = (calculator, entry point, "
     "moltype, missing-data pattern, duplicate class, validity class) resp. (algorithm, input form, tips, shape, "
@@ -91,6 +94,11 @@ def gen_cases(rng, tier):
         cases.append({"kind": "est", "seed": rng.randrange(2**32), "n": per, "moltype": "rna" if i % 3 == 2 else "dna"})
     for i in range(16 if tier == "quick" else 80):
         cases.append({"kind": "edge", "seed": rng.randrange(2**32), "n": 5, "first": i, "moltype": "rna" if i % 3 == 2 else "dna"})
+    for i in range(12 if tier == "quick" else 48):
+        cases.append({"kind": "ladder", "seed": rng.randrange(2**32), "n": 3, "first": i})
+    if tier == "thorough":
+        # one lineage absorbing more than 1015 joins: where a diagonal cell that starts at upgma()'s 1e305 gets down to the data
+        cases.append({"kind": "ladder", "seed": rng.randrange(2**32), "n": 1, "first": 0, "tips": 1100, "routes": ["upgma-DistanceMatrix"]})
     n_tree = 48 if tier == "quick" else 360
     for i in range(n_tree):
         cases.append({"kind": "nj", "seed": rng.randrange(2**32), "n": 8 if tier == "quick" else 11, "maxtips": 14 if tier == "quick" else 24})
@@ -482,6 +490,7 @@ class Decider:
         self.nontrivial = len(rows) >= 3 and self.noncanon
         self._E = {}
         self._alns = {}
+        self._app_route = None  # (how named, name as given, app moltype, moltype the alignment is written in)
 
     def aln(self, variant_rows, array_align):
         """the real alignment object for one variant (built once; the calls made on it do not change it)"""
@@ -499,7 +508,10 @@ class Decider:
         return ("hazard" if self.haz else "nohazard") + ("+identical" if self.has_identical else "")
 
     def replay(self, calc, entry, variant_rows):
-        return {"kind": "one-aln", "moltype": self.moltype, "rows": variant_rows, "calc": calc, "entry": entry}
+        rc = {"kind": "one-aln", "moltype": self.moltype, "rows": variant_rows, "calc": calc, "entry": entry}
+        if self._app_route is not None:
+            rc["app_route"] = self._app_route
+        return rc
 
     def witness(self, what, calc, entry, variant_rows, pair=None, **detail):
         """classify by the model: is the disagreeing entry one a duplicate shortcut would get wrong?"""
@@ -507,6 +519,9 @@ class Decider:
         if pair is not None and (pair[0] in self.haz or pair[1] in self.haz) and not own_cause:
             total = self.E(calc)[1].get(tuple(pair), (None, None))[0]
             mech = "C15/estimator/duplicate-shortcut/" + ("no-shared-canonical-column" if total == 0 else "missing-data-differs")
+        elif self._app_route is not None and self._app_route[3] != (self._app_route[2] or "dna"):
+            # the model's class: the app has to convert the alignment to the calculator's moltype first
+            mech = f"C15/estimator/{calc}/app-converts-moltype/{what}"
         else:
             mech = f"C15/estimator/{calc}/{what}"
         self.res.witness(mech, calc=calc, entry=entry, rows=variant_rows, pair=pair, replay_case=self.replay(calc, entry, variant_rows), **detail)
@@ -763,6 +778,53 @@ class Decider:
         vclass = self.check_matrix(calc, entry, variant_rows, names, got)
         self.sig(calc, "app", vclass, variant)
 
+    def app_route(self, calc, route):
+        """fast_slow_dist with a fast calculator only, named by `fast_calc=` or `distance=`, lower or upper case, with the
+        app's moltype unset / dna / rna, on the same data written as DNA or as RNA. T<->U is a relabelling, so the
+        model's matrix for the rows is the expected result on every route."""
+        from cogent3 import get_app
+
+        res = self.res
+        how, given, app_moltype, written = route
+        other = {"T": "U", "U": "T"}
+        rows = self.rows if written == self.moltype else [[a, "".join(other.get(c, c) for c in s)] for a, s in self.rows]
+        entry = f"app.fast_slow_dist({how}={given!r}, moltype={app_moltype}) on {written} alignment"
+        res.count("entry:app-route")
+        res.count(f"app-route:aln={written},app={app_moltype or 'unset'}")
+        res.count("calc:" + calc)
+        self._app_route = list(route)
+        try:
+            rc = self.replay(calc, "app-route", self.rows)
+            try:
+                aln = make_aln(rows, written, True)
+                kw = {how: given}
+                if app_moltype is not None:
+                    kw["moltype"] = app_moltype
+                app = get_app("fast_slow_dist", **kw)
+            except ValueError as e:
+                res.evals += 1
+                if app_moltype is None and calc in ("hamming", "pdist", "paralinear", "logdet") and "must provide a moltype" in str(e):
+                    res.refused += 1  # documented: these calculators need the moltype to be stated
+                    res.count("refusal:app-needs-moltype")
+                else:
+                    res.witness(exc_mechanism(f"C15/estimator/{calc}/app-route", e), calc=calc, entry=entry, rows=rows, error=repr(e)[:300], replay_case=rc)
+                return
+            try:
+                dm = app(aln)
+            except Exception as e:  # noqa: BLE001
+                res.evals += 1
+                res.witness(exc_mechanism(f"C15/estimator/{calc}/app-route", e), calc=calc, entry=entry, rows=rows, error=repr(e)[:300], replay_case=rc)
+                return
+            if type(dm).__name__ == "NotCompleted":
+                res.evals += 1
+                self.witness("app-not-completed", calc, entry, self.rows, pair=sorted(self.haz)[:2] if self.haz else None, message=str(dm)[:300])
+                return
+            names, got = dm_to_dict(dm)
+            vclass = self.check_matrix(calc, entry, self.rows, names, got)
+            self.sig(calc, "app-route", vclass, f"{how}|{'upper' if given.isupper() else 'lower'}|aln={written}|app={app_moltype or 'unset'}")
+        finally:
+            self._app_route = None
+
 
 def permuted_columns(rng, rows):
     L = len(rows[0][1])
@@ -804,6 +866,13 @@ def decide_alignment(res, rng, rows, moltype, pattern, tier_all=True):
                 D.distance_matrix(calc, vrows, vname, array_align=not aa, drop_invalid=True)
         D.calculator(calc, rows, "as-given")
         D.app(calc, rows, "as-given")
+        # the app route: how the calculator is named x app moltype x moltype the data is written in
+        hows = ["fast_calc", "fast_calc"] + (["distance"] if calc in ("hamming", "pdist", "paralinear", "logdet") else [])
+        given = calc.upper() if calc in ("jc69", "tn93") and rng.random() < 0.3 else calc
+        written = rng.choice(["dna", "rna"])
+        D.app_route(calc, (rng.choice(hows), given, rng.choice([None, None, "dna", "rna"]), written))
+        # ... and written the other way, with an app moltype that (mostly) differs from the alignment's
+        D.app_route(calc, (rng.choice(hows), calc, rng.choice([None, written]), "rna" if written == "dna" else "dna"))
     D.calculator("logdet-notk", rows, "as-given")
     return D
 
@@ -816,6 +885,8 @@ def run_one_aln(res, case):
     entry = case["entry"]
     if entry.startswith("calculator") or entry.startswith("get_pairwise"):
         D.calculator(calc, rows, "as-given")
+    elif entry == "app-route":
+        D.app_route(calc, tuple(case["app_route"]))
     elif entry.startswith("app"):
         D.app(calc, rows, "as-given")
     else:
@@ -1187,6 +1258,123 @@ def decide_upgma(res, model, order, form, sigparts=None):
         res.sig("upgma", form, *sigparts)
 
 
+# deep ladders for UPGMA -------------------------------------------------------------------------------------------
+# One lineage absorbs every join: tip k (k >= 1) joins the growing cluster at height h[k], h strictly increasing
+# integers (x an exact unit). d(t_i, t_j) = 2 * h[max(i, j)]. The oracle is this description itself: tip k hangs on a
+# branch of length h[k] (tip 0: h[1]), sits n - k edges (tip 0: n - 1) below the root, and every tip is h[n-1] from the root.
+# Nothing recursive, so 1000+ tips are fine.
+
+
+def ladder_heights(rng, n, unit):
+    h = [0.0]
+    cur = 0
+    for _ in range(1, n):
+        cur += rng.choice([1, 1, 1, 2, 3])
+        h.append(cur * unit)
+    return h
+
+
+def ladder_order(rng, n, order):
+    idx = list(range(n))
+    if order == "growing-cluster-last":
+        idx.reverse()
+    elif order == "shuffled":
+        rng.shuffle(idx)
+    return idx
+
+
+def decide_ladder(res, n, heights, idx, route, replay_case):
+    """UPGMA on a ladder with tips in matrix order `idx`; route = upgma-dict | upgma-DistanceMatrix |
+    UPGMA_cluster(BIG_NUM) | UPGMA_cluster(9999999999)"""
+    import numpy
+
+    names = [f"t{k}" for k in idx]
+    algo = "upgma" if route.startswith("upgma") else "UPGMA_cluster"
+    detail = dict(tips=n, heights=heights if n <= 130 else heights[:20] + ["..."], matrix_order=idx if n <= 130 else idx[:20] + ["..."], route=route, replay_case=replay_case)
+    res.evals += 1
+    res.count("ladder:" + route)
+    hi = numpy.array([heights[k] for k in idx])
+    mat = 2.0 * numpy.maximum.outer(hi, hi)
+    mat[numpy.arange(n) == numpy.arange(n)[:, None]] = 0.0
+    mat[[idx.index(0)], [idx.index(1)]] = mat[[idx.index(1)], [idx.index(0)]] = 2.0 * heights[1]
+    try:
+        if route == "upgma-dict":
+            from cogent3.cluster.UPGMA import upgma
+
+            tree = upgma({(names[i], names[j]): float(mat[i, j]) for i in range(n) for j in range(n) if i != j})
+        elif route == "upgma-DistanceMatrix":
+            from cogent3.cluster.UPGMA import upgma
+            from cogent3.evolve.fast_distance import DistanceMatrix
+
+            tree = upgma(DistanceMatrix.from_array_names(mat.copy(), names))
+        else:
+            from cogent3.cluster.UPGMA import BIG_NUM, UPGMA_cluster
+            from cogent3.core.tree import PhyloNode
+
+            large = BIG_NUM if "BIG_NUM" in route else 9999999999
+            m = mat.copy()
+            m[numpy.arange(n), numpy.arange(n)] = large  # documented: the caller puts large_number on the diagonal
+            tree = UPGMA_cluster(m, [PhyloNode(name=x) for x in names], large)
+    except Exception as e:  # noqa: BLE001
+        if exc_mechanism("", e).endswith("@harness"):
+            raise
+        res.witness(exc_mechanism(f"C15/{algo}/ladder", e), error=repr(e)[:300], **detail)
+        return
+    if not hasattr(tree, "children"):
+        res.witness(f"C15/{algo}/ladder/returned-no-tree", got=repr(tree)[:100], **detail)
+        return
+    # read the result without recursion: tips, their branch length, depth and distance from the root
+    try:
+        got = {}
+        stack = [(tree, 0, 0.0)]
+        while stack:
+            nd, depth, dist = stack.pop()
+            kids = list(nd.children)
+            if not kids:
+                got[str(nd.name)] = (None if nd.length is None else float(nd.length), depth, dist)
+            for k in kids:
+                stack.append((k, depth + 1, dist + (float(k.length) if k.length is not None else float("nan"))))
+    except Exception as e:  # noqa: BLE001
+        res.witness(exc_mechanism(f"C15/{algo}/ladder/result-not-a-tree", e), **detail)
+        return
+    exp_names = {f"t{k}" for k in range(n)}
+    if set(got) != exp_names or len(got) != n:
+        res.witness(f"C15/{algo}/ladder/tip-set", got_tips=len(got), missing=sorted(exp_names - set(got))[:10], **detail)
+        return
+    top = heights[n - 1]
+    tol = TREE_RTOL * 2 * top
+    for k in range(n):
+        ln, depth, dist = got[f"t{k}"]
+        e_len = heights[max(k, 1)]
+        e_depth = n - max(k, 1)
+        if depth != e_depth:
+            res.witness(f"C15/{algo}/ladder/topology", tip=f"t{k}", got_depth=depth, exp_depth=e_depth, **detail)
+            return
+        if ln is None or abs(ln - e_len) > tol:
+            res.witness(f"C15/{algo}/ladder/branch-length", tip=f"t{k}", got_len=ln, exp_len=e_len, **detail)
+            return
+        if not abs(dist - top) <= tol:
+            res.witness(f"C15/{algo}/ladder/root-to-tip", tip=f"t{k}", got=dist, exp=top, **detail)
+            return
+    res.sig(algo, "ladder", route, "35-60" if n <= 60 else "61-120" if n <= 120 else "1000+", replay_case["order"], unit_name(replay_case["unit"]))
+
+
+def run_ladders(res, case):
+    rng = random.Random(case["seed"])
+    for i in range(case["n"]):
+        n = case.get("tips") or rng.randint(35, 120)
+        unit = rng.choice([1, 1, 1, 0.5, 2.0**-20])
+        order = ["growing-cluster-first", "growing-cluster-last", "shuffled"][(case["first"] + i) % 3]
+        heights = ladder_heights(rng, n, unit)
+        idx = ladder_order(rng, n, order)
+        routes = case.get("routes") or ["upgma-dict", "upgma-DistanceMatrix", "UPGMA_cluster(BIG_NUM)", "UPGMA_cluster(9999999999)"]
+        for route in routes:
+            rc = {"kind": "one-ladder", "tips": n, "heights": heights, "idx": idx, "route": route, "order": order, "unit": unit}
+            decide_ladder(res, n, heights, idx, route, rc)
+        if i == 0:
+            res.sample({"algorithm": "upgma", "ladder_tips": n, "matrix_order": order, "heights": heights[:8] + ["..."]})
+
+
 SHAPES = ["random", "random", "caterpillar", "balanced"]
 LENS = ["mixed", "mixed", "equal", "tiny-internal", "long-tips", "short-edge"]
 
@@ -1285,6 +1473,12 @@ def run_case(case):
         else:
             decide_nj(res, case["tree"], case["order"], case["form"], case["algo"], case.get("params"))
         return res
+    if kind == "one-ladder":
+        decide_ladder(res, case["tips"], case["heights"], case["idx"], case["route"], case)
+        return res
+    if kind == "ladder":
+        run_ladders(res, case)
+        return res
     if kind == "one-scale":
         decide_scale_relation(res, case["tree"], case["order"], case["form"], case["algo"], case.get("params"), case["c"])
         return res
@@ -1374,6 +1568,11 @@ def required(counters, tier):
         "entry:distance_matrix",
         "entry:calculator",
         "entry:app",
+        "app-route:aln=rna,app=unset",
+        "app-route:aln=rna,app=dna",
+        "app-route:aln=dna,app=rna",
+        "app-route:aln=dna,app=unset",
+        "refusal:app-needs-moltype",
         "entry:lengths",
         "entry:include_duplicates=False",
         "algo:nj",
@@ -1389,6 +1588,10 @@ def required(counters, tier):
         "scale-relation:app.quick_tree",
         "scale-relation:DistanceMatrix.quick_tree",
         "scale-relation:upgma",
+        "ladder:upgma-dict",
+        "ladder:upgma-DistanceMatrix",
+        "ladder:UPGMA_cluster(BIG_NUM)",
+        "ladder:UPGMA_cluster(9999999999)",
         "form:dict-upper",
         "form:DistanceMatrix",
     ] + ["calc:" + c for c in CALCS] + ["exact-boundary:" + e for e in EDGES]
